@@ -4,7 +4,7 @@ package main
 
 func init() {
 	addRun("C06", "FB: predictor shapes (Colors x BitsPerComponent x Columns x predictor 1,2,10..15; gradients, extremes, constants, random) through predict.NewWriter/NewReader, the Lean model and FilterFlate/LZW/Compress (Encode->Info->MakeFilter->Decode) with random write/read chunkings; Params.Validate on boundary and huge values; paethPredictor on boundary and random triples. Non-trivial: at least one data byte and a predictor other than 1; distinct by parameters and data.", runFBPredict)
-	addRun("C06", "FB: CCITTFax K<0,0,>0 x EndOfLine x EncodedByteAlign x BlackIs1 x EndOfBlock x Rows x Columns (1..300, 1728, 2560..5120), rows of random bits, byte runs, runs that are multiples of 64, near copies of the previous row, all white/black; encoder and decoder compared with the model, round trip through Info->MakeFilter required outside the known failing classes. Non-trivial: at least one row.", runFBCCITT)
+	addRun("C06", "FB: CCITTFax K<0,0,>0 x EndOfLine x EncodedByteAlign x BlackIs1 x EndOfBlock x Rows x Columns (1..300, 1728, 2560..5120), rows of random bits, byte runs, runs that are multiples of 64, near copies of the previous row, all white/black, rows of 200000 pixels with runs of 161344 pixels and more; encoder and decoder compared with the model, round trip through Info->MakeFilter required for EVERY parameter class: a failure inside one of the classes that failed before the reader was repaired is reported under that class key (ccitt-noeob, ccitt-bytealign, ccitt-kpos-rows, ccitt-1d-final-run-64, ccitt-2d-long-run: regression detectors), any other under roundtrip. Non-trivial: at least one row.", runFBCCITT)
 	addRun("C06", "FB: filter parameter values (valid, shorthand 0, out of range, version dependent) through Info, the emitted dictionary through MakeFilter; arbitrary DecodeParms dictionaries (type confusion, magnitudes up to int64 limits) through MakeFilter; /Filter and /DecodeParms of any shape through GetFilters (chain cap 8, Crypt position); appendFilter from arbitrary entries. Non-trivial: a non-empty dictionary.", runFBParams)
 	addRun("C06", "FB: chains of up to 3 filters through Writer.OpenStream and Reader/DecodeStream with random chunkings.", runFBChains)
 	addRun("C06", "FB: every encoder (CCITTFax K<0/0/>0 with all option sets, Flate/LZW/Compress with predictor rows, ASCII85, ASCIIHex, RunLength) fed from ONE reused caller buffer that is overwritten after every Write — sizes 1,2,3,5,7, row-1, row, row+1, 2.5 rows, 2 rows+1, 3 rows-1, 13, 127, 4095, random — and through io.CopyBuffer: output byte-identical to the single-Write encoding; the encoding read back with 1/3/5/7-byte reused destination buffers and (CCITTFax G4, G3 1-D+EOL) by x/image/ccitt. Non-trivial: data not empty.", runFBChunking)
@@ -15,15 +15,18 @@ func init() {
 	addReplay("C06", "fb-chain-rt", replayChainRT)
 	addReplay("C06", "fb-getfilters", replayGetFilters)
 
-	addRun("C07", "FB: library PNG/TIFF predictor output decoded by, and input encoded by, reference codecs written from the PNG and TIFF specifications (Go, in the harness, and Lean Spec/FBCodecs through the driver); library CCITTFax Group 4 and Group 3 1-D (EndOfLine) output decoded by golang.org/x/image/ccitt. Non-trivial: at least one row.", runFBForeign)
+	addRun("C07", "FB: library PNG/TIFF predictor output decoded by, and input encoded by, reference codecs written from the PNG and TIFF specifications (Go, in the harness, and Lean Spec/FBCodecs through the driver); library CCITTFax Group 4 (with and without EncodedByteAlign) and Group 3 1-D (EndOfLine) output, with and without the end-of-block pattern, decoded by golang.org/x/image/ccitt; the ten Group 4 / Group 3 sample files of x/image/ccitt's test data (written by an unrelated encoder: plain, inverted, byte-aligned Group 4, EOFB-less) decoded by the library and by x/image/ccitt with BlackIs1 and EndOfBlock varied: identical bytes (key foreign-ccitt-sample), the same files through the Lean reader model. Non-trivial: at least one row.", runFBForeign)
 	addRun("C07", "FB: the reused-buffer / io.CopyBuffer encodings of CCITTFax (all K classes) and of the predictor filters equal the single-Write encoding and are read by x/image/ccitt (G4, G3 1-D+EOL).", runFBChunking)
 	addReplay("C07", "fb-chunking", replayChunking)
 	addReplay("C07", "fb-foreign-predict", replayForeignPredict)
 	addReplay("C07", "fb-foreign-ccitt", replayForeignCCITT)
+	addReplay("C07", "fb-foreign-sample", replayXImageSample)
 
 	addRun("C08", "FB: hostile DecodeParms (type confusion, huge Columns/Rows/Colors), dimension bombs, truncated and mutated Flate+predictor and CCITTFax bodies, /Filter chains up to and beyond 8 entries through GetFilters/DecodeStream: data or a malformed error, no panic, output bounded by rows x row size. Non-trivial: the decoder was built.", runFBHostile)
 	addRun("C08", "FB: CCITTFax output bound: every combination of /Rows {absent, 3, cap+1, 2^20, 2^40, negative} x /EndOfBlock {absent, true, false} x K {<0, 0, 1} x EndOfLine x /Columns {1, 8, 1728, 65536, 2^20} with an all-white / all-black body that encodes more rows than the geometric cap, drained with a hard read budget: decoded bytes <= cap rows x ceil(Columns/8). Non-trivial: every case.", runFBBombs)
 	addRun("C08", "FB: DCTDecode on synthetic JPEGs (SOI, APP14, DQT, SOF0/1/2 with 1, 3 and 4 components and all sampling factor combinations H,V in {1,2,4}, DHT with one-code tables, DRI, SOS, a few entropy bytes, AC scans), truncated at every marker boundary, hostile dimensions/precision/selectors/counts, progressive files with 1..2500 first-pass and refinement scans of EOB-run tokens at up to 2048x2048 (rejected, or decoded with scans x blocks <= 4 x (input+output) and CPU time <= 3 s + 200 ns x (input+output)), and JBIG2Decode on hostile segment headers and on pages from the library's encoder (text region over symbol dictionaries, generic, halftone over pattern dictionaries) with mutated counts, flags, referred-to lists, geometry and starved coded data; JBIG2 memory accounting on structured streams (symbol dictionary with 256 KiB..1 MiB symbols, 2..16 rounds of intermediate generic region + further dictionary + Huffman or arithmetic text region with SBREFINE=1 and mixed RI bits): retained heap (HeapAlloc after forced GC, sampled and at every pool event) <= budget + 2 MiB and <= charged bytes + 2 MiB, pool ledger consistent (every freeBitmap names a live bitmap that is unreachable three events later); filter chains of length 2-3 with the goroutine-owning DCT decoder at every position, 50 DecodeStream/Close cycles per life cycle (construction fails above DCT, read to EOF, read 10 bytes, unread): goroutines back at the baseline, heap growth <= 8 MiB; run in child processes (a helper-goroutine panic would kill the harness): data or malformed error, no crash, no hang (10 s watchdog, attributed to the running case), output within width x height x components, no goroutine left after Close (also after an early Close). Non-trivial: data was produced.", runFBChild)
+	addRun("C08", "FB: CCITTFax 2-D rows at the right edge: token sequences of vertical (VR1..3, VL1..3, V0), pass and horizontal modes (short runs, first runs longer than the line) for Columns around multiples of 8 (5..24, 62..72, 1726..1728), Group 4 and Group 3 2-D rows, with and without /Rows, BlackIs1, EOFB, trailing bytes; read row by row: every row <= ceil(Columns/8) bytes, total <= rows x row size (class ccitt-row-overrun); every body also through the Lean reader model (FB cdec), for which row_length is a theorem. Non-trivial: at least one row decoded.", runFBCCEdge)
+	addReplay("C08", "fb-ccitt-edge", replayCCEdge)
 	addReplay("C08", "fb-hostile-child", replayChild)
 	addReplay("C08", "fb-bomb", replayBomb)
 	addReplay("C08", "fb-hostile", replayHostile)
